@@ -160,8 +160,52 @@ def run_bound_echo(doc: dict) -> dict:
     return res
 
 
+def run_private_binding(doc: dict) -> dict:
+    """The inner graph binds a name its SELECTED part does not need; the wrapper renames a needed input onto that very name.
+    The binding is private to the inner graph: the wrapper's input stays required, exactly as in the inlined graph."""
+    res = empty_result()
+    inner = {"name": "PI", "nodes": [{"kind": "fn", "name": "pf", "params": [{"name": "px"}], "outs": ["pp"]}, {"kind": "fn", "name": "pg", "params": [{"name": "pk"}], "outs": ["pq"]}],
+             "order": [0, 1], "bind": {"pk": doc["value"]}, "select": ["pp"]}
+    wrapper = {"kind": "graph", "name": "PI", "graph": inner, "renames": [{"inputs": {"px": "pk"}}]}
+    nested = {"name": "top", "nodes": [wrapper], "order": [0]}
+    if doc.get("depth") == 2:
+        nested = {"name": "top", "nodes": [{"kind": "graph", "name": "PM", "graph": dict(nested, name="PM")}], "order": [0]}
+    flat = {"name": "top", "nodes": [{"kind": "fn", "name": "pf", "params": [{"name": "px"}], "outs": ["pp"], "rename_inputs": {"px": "pk"}}], "order": [0]}
+    viol: list = []
+    rts = []
+    try:
+        for mode in ("sync", "async"):
+            for vals in ({}, {"pk": doc["value"] + 5}):
+                cfg = doc["cfg"] if mode == "async" else None
+                wf = run_world(copy.deepcopy(flat), dict(vals), mode=mode, cfg=cfg)
+                wn = run_world(copy.deepcopy(nested), dict(vals), mode=mode, cfg=cfg)
+                rts += [wf["rt"], wn["rt"]]
+                res["runs"] += 2
+                fo, no = wf["out"], wn["out"]
+                tag = f"{mode}[private_binding,{'supplied' if vals else 'omitted'}]"
+                f_rej = fo["status"] == "raised" and fo["error"] and fo["error"][0] == "MissingInputError"
+                n_rej = no["status"] == "raised" and no["error"] and no["error"][0] == "MissingInputError"
+                if f_rej != n_rej:
+                    viol.append((f"{tag}:input_required_in_one_variant_only", {"flat": [fo["status"], fo["values"], fo["error"]], "nested": [no["status"], no["values"], no["error"]]}))
+                elif not f_rej and (no["status"] != fo["status"] or canon(no["values"]) != canon(fo["values"])):
+                    viol.append((f"{tag}:values_differ_from_flat", {"flat": [fo["status"], fo["values"]], "nested": [no["status"], no["values"], no["error"]]}))
+    except BuildError:
+        res["discard"] = "build_error"
+        return res
+    res["violations"] = viol
+    res["nontrivial"] = True
+    res["stats"]["private_binding_cases"] = 1
+    res["shape"] = digest(["private_binding", doc.get("depth")], 8)
+    res["sched"] = "-"
+    res["sig"] = res["shape"]
+    res["hdigest"] = hist_digest(rts)
+    return res
+
+
 def gen_case(rng: random.Random, tier: str) -> dict:
     r0 = rng.random()
+    if r0 < 0.01:
+        return {"kind": "private_binding", "value": rng.randint(1, 9), "depth": rng.choice([1, 2]), "cfg": gen.gen_async_cfg(rng, allow_hold=False)}
     if r0 < 0.02:
         return {"kind": "bound_echo", "value": rng.randint(1, 9), "rename": True, "cfg": gen.gen_async_cfg(rng, allow_hold=False)}
     if r0 < 0.05:
@@ -191,7 +235,7 @@ def gen_case(rng: random.Random, tier: str) -> dict:
         gen.add_falsy_consts(rng, g, 0.2)  # outputs whose VALUE is None / 0 / "" / []: produced, not missing (also across an inner select)
     return {"siblings": rng.random() < 0.3, "nested_edges": rng.choice([False, False, False, True, "split"]), "graph": g, "inputs": inp, "cuts": cuts, "rename": ren, "inner_select": rng.random() < 0.25, "bind_inner": rng.random() < 0.7,
             "touch": rng.choice([[], [], ["spec"], ["graph"], ["spec", "graph"]]), "bind_conflict": rng.random() < 0.3, "async": [gen.gen_async_cfg(rng, allow_hold=True) for _ in range(2)],
-            "wrap_top": rng.random() < 0.25}
+            "wrap_top": rng.random() < 0.25, "rely_on_surfaced": rng.random() < 0.35}
 
 
 # ------------------------------------------------------------------ nesting
@@ -251,8 +295,12 @@ def build_nested(doc: dict) -> tuple[dict, dict, dict, dict]:
     for x, v in bind.items():
         used_outer = any(p["name"] == x for nd in top_nodes if nd["kind"] == "fn" for p in nd["params"])
         moved = any(x in nd.get("_ibind", {}) for nd in top_nodes if nd["kind"] == "graph")
-        if used_outer or not moved or x in conflict:
+        # (rely_on_surfaced: a name bound inside the nested graph and ALSO consumed by an outer function node is bound nowhere else -
+        #  the outer consumer takes the value the nested graph surfaces, as it takes the flat graph's binding)
+        if (used_outer and not doc.get("rely_on_surfaced")) or not moved or x in conflict:
             outer_bind[x] = v
+        elif used_outer:
+            info["outer_consumer_of_surfaced_binding"] = info.get("outer_consumer_of_surfaced_binding", 0) + 1
     # renames on the (top-level) wrapper, rest of the graph alpha-renamed to match
     rho: dict[str, str] = {}
     wrapper = next((nd for nd in top_nodes if nd["kind"] == "graph"), None)
@@ -337,6 +385,8 @@ def run_case(doc: dict) -> dict:
         return run_signal_cut(doc)
     if doc.get("kind") == "bound_echo":
         return run_bound_echo(doc)
+    if doc.get("kind") == "private_binding":
+        return run_private_binding(doc)
     res = empty_result()
     g = doc["graph"]
     inp = doc["inputs"]
@@ -459,10 +509,16 @@ def run_case(doc: dict) -> dict:
     res["stats"]["cut_depth_%d" % len(doc["cuts"])] = 1
     if doc.get("wrap_top"):
         res["stats"]["whole_program_one_level_deeper"] = 1
+    if info.get("outer_consumer_of_surfaced_binding"):
+        res["stats"]["outer_consumer_of_surfaced_binding"] = 1
     return res
 
 
 def shrink_candidates(doc: dict):
+    if doc.get("kind") == "private_binding":
+        if doc.get("depth") == 2:
+            yield dict(doc, depth=1)
+        return
     if doc.get("kind") == "bound_echo":
         return
     if doc.get("kind") == "signal_cut":
@@ -502,7 +558,7 @@ def shrink_candidates(doc: dict):
                 c = copy.deepcopy(doc)
                 c["rename"]["style"] = st
                 yield c
-    for key in ("inner_select", "bind_inner", "wrap_top", "siblings", "bind_conflict"):
+    for key in ("inner_select", "bind_inner", "wrap_top", "siblings", "bind_conflict", "rely_on_surfaced"):
         if doc.get(key):
             c = copy.deepcopy(doc)
             c[key] = False
@@ -538,6 +594,8 @@ def signature(doc: dict, cls: str, detail) -> str:
 
 
 def sample_repr(doc: dict, res: dict):
+    if doc.get("kind") == "private_binding":
+        return {"template": "inner graph binds a name its selected part does not need; wrapper renames a needed input onto it", "depth": doc.get("depth")}
     if doc.get("kind") == "bound_echo":
         return {"template": "inner graph entered below its first node, upstream value from its own binding", "rename": doc.get("rename")}
     if doc.get("kind") == "signal_cut":
